@@ -9,6 +9,7 @@ from pbt.core import Result, pf_tol, silence, pf_outcome, exc_sig
 
 ID = "C23"
 LEVEL = "exploration"
+DEADLINE_S = {"quick": 600, "thorough": 3000}   # the shared machine can be 5x slower than nominal
 EXAMPLES = {"quick": 640, "thorough": 20000}
 KINDS = ["cont_bus_index", "cont_elements_index", "line_impedance_roundtrip", "ext_grid_gen_roundtrip",
          "slack_gen_ext_grid_roundtrip", "ward_internal", "xward_internal", "merge_nets", "select_subnet",
@@ -69,6 +70,12 @@ def _recipe(draw, kind):
         for b in recipe["buses"]:
             b.pop("in_service", None)
     el = recipe["el"]
+    if kind in ("drop_out_of_service", "drop_inactive") and draw(st.integers(0, 5)):
+        # a live 3W transformer at a dead bus: known shape, kept for a minority only
+        for e in el:
+            if e["t"] == "trafo3w":
+                for k in ("hv_bus", "mv_bus", "lv_bus"):
+                    recipe["buses"][e[k]].pop("in_service", None)
     if kind == "line_impedance_roundtrip":
         for e in el:
             if e["t"] == "line" and draw(st.integers(0, 2)):
@@ -78,6 +85,12 @@ def _recipe(draw, kind):
         lines = [e for e in el if e["t"] == "line"]
         if lines:
             lines[draw(st.integers(0, len(lines) - 1))]["parallel"] = draw(st.integers(2, 4))
+    if kind == "ext_grid_gen_roundtrip" and draw(st.integers(0, 2)) == 0:
+        el.append({"t": "ext_grid", "bus": draw(st.integers(0, len(recipe["buses"]) - 1)), "vm_pu": 1.0, "va_degree": 0.0,
+                   "in_service": False})
+    if kind == "slack_gen_ext_grid_roundtrip" and draw(st.integers(0, 2)) == 0:
+        el.append({"t": "gen", "bus": draw(st.integers(0, len(recipe["buses"]) - 1)), "vm_pu": 1.0, "p_mw": 0.0, "slack": True,
+                   "in_service": False})
     if kind == "slack_gen_ext_grid_roundtrip":
         for i, e in enumerate(el):
             if e["t"] == "ext_grid" and e.get("va_degree", 0.0) == 0.0:
@@ -116,9 +129,16 @@ def _recipe(draw, kind):
     return recipe
 
 
+def _kinds():
+    """development aid: C23_KINDS=kind1,kind2 restricts the drawn transformations (unset in normal runs)"""
+    import os
+    sel = [k for k in os.environ.get("C23_KINDS", "").split(",") if k in KINDS]
+    return sel or KINDS
+
+
 @st.composite
 def _case(draw, tier):
-    kind = draw(st.sampled_from(KINDS))
+    kind = draw(st.sampled_from(_kinds()))
     T = {"kind": kind, "a": draw(st.integers(0, 60)), "b": draw(st.integers(0, 255)), "c": draw(st.integers(0, 5)),
          "with_results": draw(st.sampled_from([True, True, False]))}
     case = {"recipe": draw(_recipe(kind)), "T": T}
@@ -136,8 +156,6 @@ def strategy(tier):
 
 TABLES = ("bus", "line", "trafo", "trafo3w", "impedance", "dcline", "switch", "load", "sgen", "gen", "ext_grid", "storage",
           "shunt", "ward", "xward", "motor", "asymmetric_load", "asymmetric_sgen")
-BRANCH = ("line", "trafo", "trafo3w", "impedance", "dcline", "switch")
-PQ = ("load", "sgen", "storage", "shunt", "ward", "xward", "motor", "asymmetric_load", "asymmetric_sgen")
 FAMILY = {"line": ("line", "impedance"), "impedance": ("impedance", "line"), "ext_grid": ("ext_grid", "gen"),
           "gen": ("gen", "ext_grid")}
 
@@ -310,7 +328,15 @@ def compare(A, B, step, sn, info):
     gone_ok = info.get("gone_ok", set())
     # ---- buses
     target = info.get("bus_target", {})
-    acc = {}
+    # nodes whose voltage is controlled by machines at several buses: the split of P (slack) and Q between the machines,
+    # and with it the bus powers, is not unique -> bus powers are compared as a sum over the node
+    nodeA = oracles.fused_nodes(A)
+    mbus = {}
+    for t in ("ext_grid", "gen"):
+        for idx in A[t].index[A[t].in_service.astype(bool)]:
+            mbus.setdefault(nodeA[A[t].at[idx, "bus"]], set()).add(A[t].at[idx, "bus"])
+    multi = {n for n, bs in mbus.items() if len(bs) > 1}
+    acc, accB, names = {}, {}, {}
     for tag, ia in tagsA["bus"].items():
         if only is not None and not tag.startswith(only):
             continue
@@ -324,8 +350,11 @@ def compare(A, B, step, sn, info):
         if ("bus", tag) not in gone_ok or ttag != tag:
             c.num("bus-voltage", tag + ".vm", vm, B.res_bus.at[ib, "vm_pu"], "vm")
             c.num("bus-voltage", tag + ".va", A.res_bus.at[ia, "va_degree"], B.res_bus.at[ib, "va_degree"], "va")
-        p, q = acc.get(ib, (0.0, 0.0))
-        acc[ib] = (p + _nz(A.res_bus.at[ia, "p_mw"]), q + _nz(A.res_bus.at[ia, "q_mvar"]))
+        key = ("node", nodeA[ia]) if nodeA[ia] in multi else ("bus", ib)
+        p, q = acc.get(key, (0.0, 0.0))
+        acc[key] = (p + _nz(A.res_bus.at[ia, "p_mw"]), q + _nz(A.res_bus.at[ia, "q_mvar"]))
+        accB.setdefault(key, set()).add(ib)
+        names.setdefault(key, []).append(tag)
     adj = {}
     if "xward" in info.get("replaced_tables", ()):
         # the xward consumption contains the flow into its internal branch, which is a branch (no bus element) afterwards
@@ -334,10 +363,11 @@ def compare(A, B, step, sn, info):
                 fb = B.impedance.at[ii, "from_bus"]
                 p, q = adj.get(fb, (0.0, 0.0))
                 adj[fb] = (p + _nz(B.res_impedance.at[ii, "p_from_mw"]), q + _nz(B.res_impedance.at[ii, "q_from_mvar"]))
-    for ib, (p, q) in acc.items():
-        dp, dq = adj.get(ib, (0.0, 0.0))
-        c.num("bus-power", "%s.p" % B.bus.at[ib, "name"], p, _nz(B.res_bus.at[ib, "p_mw"]) + dp)
-        c.num("bus-power", "%s.q" % B.bus.at[ib, "name"], q, _nz(B.res_bus.at[ib, "q_mvar"]) + dq)
+    for key, (p, q) in acc.items():
+        pb = sum(_nz(B.res_bus.at[ib, "p_mw"]) + adj.get(ib, (0.0, 0.0))[0] for ib in accB[key])
+        qb = sum(_nz(B.res_bus.at[ib, "q_mvar"]) + adj.get(ib, (0.0, 0.0))[1] for ib in accB[key])
+        c.num("bus-power", "+".join(names[key][:4]) + ".p", p, pb)
+        c.num("bus-power", "+".join(names[key][:4]) + ".q", q, qb)
     # ---- elements matched by tag (same table, or the table a replace function moves them to)
     for t in TABLES[1:]:
         if t in ("gen", "ext_grid"):
@@ -369,7 +399,6 @@ def compare(A, B, step, sn, info):
                 if col in resB.columns and (t, col) not in skip_cols:
                     c.num(t if t2 == t else "%s-as-%s" % (t, t2), "%s.%s" % (tag, col), rowA[col], resB.at[ib, col], col_kind(col))
     # ---- machines: p of PV gens individually, the rest as a sum per electrical node of the original
-    nodeA = oracles.fused_nodes(A)
     sums = {}
     for t in ("ext_grid", "gen"):
         for tag, ia in tagsA[t].items():
@@ -589,6 +618,8 @@ def steps(kind, T, holder, A, ctx):
         tb.replace_xward_by_internal_elements(net, xwards=sel, set_xward_bus_limits=bool(cc & 1))
         ctx["changed"] = True
         yield "replace_xward_by_internal_elements", {"replaced_tables": ("xward",)}
+    elif kind in ("drop_out_of_service", "drop_inactive") and _t3_at_dead_bus(net, ctx):
+        pass
     elif kind == "drop_out_of_service":
         n0 = sum(len(net[t]) for t in TABLES)
         tb.drop_out_of_service_elements(net)
@@ -652,15 +683,18 @@ class NotApplicable(Exception):
     pass
 
 
+def _t3_at_dead_bus(net, ctx):
+    """feature: an in-service 3W transformer with an out-of-service terminal bus keeps its other two windings in the power
+    flow, while the toolbox treats it as 'connected to an inactive bus'"""
+    for i in net.trafo3w.index[net.trafo3w.in_service.astype(bool)]:
+        ins = [bool(net.bus.at[net.trafo3w.at[i, c], "in_service"]) for c in ("hv_bus", "mv_bus", "lv_bus")]
+        if not all(ins) and sum(ins) >= 2:
+            ctx.setdefault("features", set()).add("trafo3w-at-oos-bus")
+    return False
+
+
 def net_tags_of(net, t, idxs):
     return [net[t].at[i, "name"] for i in idxs if i in net[t].index]
-
-
-def classify_features(A):
-    f = set()
-    if len(A.switch) and (A.switch.et == "t3").any():
-        f.add("t3-switch")
-    return f
 
 
 def group_of(cls):
@@ -672,15 +706,19 @@ def group_of(cls):
 
 
 def emit(res, step, diffs, feats=(), **extra):
-    """one failure per (step, group of observation, root-cause features of the input)"""
+    """one failure per (step, root-cause features of the input) if the input has a feature that is a known root-cause class,
+    else per (step, group of observation)"""
+    if not diffs:
+        return
+    f = "+".join(sorted(feats))
+    if f:
+        res.fail("results-differ/%s/%s" % (step, f), observed=sorted({c for c, _ in diffs}), first=dict(diffs[0][1], cls=diffs[0][0]), **extra)
+        return
     by = {}
     for cls, d in diffs:
         by.setdefault(group_of(cls), []).append((cls, d))
-    f = "+".join(sorted(feats))
     for g, items in sorted(by.items()):
-        sig = "results-differ/%s/%s" % (step, g) + ("/" + f if f else "")
-        classes = sorted({c for c, _ in items})
-        res.fail(sig, observed=classes, first=dict(items[0][1], cls=items[0][0]), **extra)
+        res.fail("results-differ/%s/%s" % (step, g), observed=sorted({c for c, _ in items}), first=dict(items[0][1], cls=items[0][0]), **extra)
 
 
 def evaluate_step(res, A, B, step, sn, info, label_other):
